@@ -34,6 +34,9 @@ impl<'t, 'a, 'g> Gen<'t, 'a, 'g> {
         self.deferred.push(vec![]);
         self.block_depth += 1;
         let mut lines = vec![];
+        if self.cfg.ts_slots {
+            lines.push(format!("{}{}", ind(i), self.mark('l', &Ty::Any)));
+        }
         for _ in 0..n {
             if self.stmt_budget == 0 {
                 break;
@@ -59,11 +62,17 @@ impl<'t, 'a, 'g> Gen<'t, 'a, 'g> {
 
     pub fn stmt(&mut self, i: usize) -> String {
         let deep = self.block_depth >= self.cfg.max_depth + 1;
-        let w: [u32; 22] = if deep {
+        let mut w: [u32; 22] = if deep {
             [6, 5, 4, 0, 0, 0, 0, 0, 0, 0, 0, 0, 2, 0, 0, 2, 0, 1, 1, 0, 0, 0]
         } else {
             [8, 6, 5, 4, 3, 3, 2, 2, 3, 4, 4, 2, 3, 2, 2, 3, 2, 2, 2, 2, 1, 2]
         };
+        if self.cfg.ts_slots && !deep {
+            // C03: functions and classes carry most of the decoration positions
+            w[10] = 8;
+            w[11] = 9;
+            w[19] = 4;
+        }
         match self.tape.weighted(&w) {
             0 => self.stmt_decl(i),
             1 => {
@@ -106,8 +115,17 @@ impl<'t, 'a, 'g> Gen<'t, 'a, 'g> {
         // never reference it outside), but tag it
         self.tag(format!("decl:{}", kw));
         let m = self.mark('v', &ty);
+        if self.cfg.ts_slots && kw != "const" && self.tape.chance(1, 8) {
+            // declaration without initialiser, assigned right away: `let x!: T; x = e;`
+            let m = self.mark('V', &ty);
+            let a = self.mark('A', &ty);
+            self.tag("decl:split");
+            self.declare(&name, ty, true);
+            return format!("{}{} {}{};\n{}{} = {}{};", ind(i), kw, name, m, ind(i), name, init, a);
+        }
+        let a = self.mark('A', &ty);
         self.declare(&name, ty, kw != "const");
-        format!("{}{} {}{} = {};", ind(i), kw, name, m, init)
+        format!("{}{} {}{} = {}{};", ind(i), kw, name, m, init, a)
     }
 
     pub fn stmt_assign(&mut self, i: usize) -> String {
@@ -267,7 +285,7 @@ impl<'t, 'a, 'g> Gen<'t, 'a, 'g> {
             1 => format!("{} += 1", v),
             _ => format!("++{}", v),
         };
-        format!("{}for (let {} = 0; {} < {}; {}) {{\n{}\n{}}}", ind(i), v, v, n, step, body.join("\n"), ind(i))
+        format!("{}for (let {}{} = 0; {} < {}; {}) {{\n{}\n{}}}", ind(i), v, self.mark('v', &Ty::Num), v, n, step, body.join("\n"), ind(i))
     }
 
     pub fn stmt_while(&mut self, i: usize) -> String {
@@ -436,7 +454,7 @@ impl<'t, 'a, 'g> Gen<'t, 'a, 'g> {
         let body = self.small_body(i + 1);
         self.loops.pop();
         self.scopes.pop();
-        format!("{}{}: for (let {} = 0; {} < {}; {}++) {{\n{}\n{}}}", ind(i), l, v, v, n, v, body.join("\n"), ind(i))
+        format!("{}{}: for (let {}{} = 0; {} < {}; {}++) {{\n{}\n{}}}", ind(i), l, v, self.mark('v', &Ty::Num), v, n, v, body.join("\n"), ind(i))
     }
 
     pub fn stmt_shadow_block(&mut self, i: usize) -> String {
@@ -526,7 +544,7 @@ impl<'t, 'a, 'g> Gen<'t, 'a, 'g> {
                 String::new()
             } else {
                 self.declare(&e, Ty::Any, true);
-                format!(" ({})", e)
+                format!(" ({}{})", e, self.mark('k', &Ty::Any))
             };
             s.push_str(&format!(" catch{} {{\n", binding));
             if !binding.is_empty() {
@@ -611,6 +629,10 @@ impl<'t, 'a, 'g> Gen<'t, 'a, 'g> {
         self.deferred.push(vec![]);
         self.block_depth += 1;
         let mut lines = vec![];
+        if self.cfg.ts_slots {
+            // local type declarations
+            lines.push(format!("{}{}", ind(i), self.mark('l', &Ty::Any)));
+        }
         for _ in 0..n {
             if self.stmt_budget == 0 {
                 break;
@@ -622,7 +644,7 @@ impl<'t, 'a, 'g> Gen<'t, 'a, 'g> {
             self.tag("fn:no-return");
         } else {
             let d = self.cfg.max_depth.min(2);
-            lines.push(format!("{}return {};", ind(i), self.expr(ret, d)));
+            lines.push(format!("{}return {}{};", ind(i), self.expr(ret, d), self.mark('A', ret)));
         }
         lines.extend(self.deferred.pop().unwrap_or_default());
         self.block_depth -= 1;
@@ -862,8 +884,11 @@ impl<'t, 'a, 'g> Gen<'t, 'a, 'g> {
         }
         let name = self.fresh("C");
         let base: Option<ClassInfo> = if !self.classes.is_empty() && self.tape.chance(1, 2) { Some(self.classes[self.tape.below(self.classes.len())].clone()) } else { None };
+        // C03: a class that is only used as a base class (may be declared abstract in TypeScript)
+        let only_base = self.cfg.ts_slots && self.tape.chance(1, 3);
+        let grp = self.ts_group();
         self.tag("decl:class");
-        let mut info = ClassInfo { name: name.clone(), fields: vec![], methods: vec![], getters: vec![], statics: vec![], ctor_params: vec![] };
+        let mut info = ClassInfo { name: name.clone(), fields: vec![], methods: vec![], getters: vec![], statics: vec![], ctor_params: vec![], only_base: if only_base { Some(self.classes.len()) } else { None } };
         let mut lines: Vec<String> = vec![];
         // fields with initialisers
         let mut nf = self.tape.range(0, 2) as usize;
@@ -905,6 +930,11 @@ impl<'t, 'a, 'g> Gen<'t, 'a, 'g> {
                 body.push(format!("{}super({});", ind(i + 2), args.join(", ")));
             }
             body.extend(assigns);
+            if self.cfg.ts_slots {
+                let anys: Vec<String> = (0..ctor_params.len()).map(|k| format!("x{}: any", k)).collect();
+                let opts: Vec<String> = (0..ctor_params.len()).map(|k| format!("x{}?: unknown", k)).collect();
+                lines.push(self.ts_only(&format!("{ind}constructor({a});\n{ind}constructor({o});", ind = ind(i + 1), a = anys.join(", "), o = opts.join(", "))));
+            }
             lines.push(format!("{}constructor({}) {{\n{}\n{}}}", ind(i + 1), ps.join(", "), body.join("\n"), ind(i + 1)));
             self.leave_fn(saved);
         }
@@ -926,7 +956,11 @@ impl<'t, 'a, 'g> Gen<'t, 'a, 'g> {
             body.extend(self.fn_body(&ret, i + 2));
             self.leave_fn(saved);
             self.tag("class:method");
-            lines.push(format!("{}{}{}({}){} {{\n{}\n{}}}", ind(i + 1), self.mark('d', &ret), mname, plist, self.mark('r', &ret), body.join("\n"), ind(i + 1)));
+            if self.cfg.ts_slots {
+                let anys: Vec<String> = (0..params.len()).map(|k| format!("x{}: any", k)).collect();
+                lines.push(self.ts_only(&format!("{ind}{m}({a}): any;\n{ind}{m}<T>(...rest: T[]): unknown;", ind = ind(i + 1), m = mname, a = anys.join(", "))));
+            }
+            lines.push(format!("{}{}{}{}({}){} {{\n{}\n{}}}", ind(i + 1), self.mark('d', &ret), mname, self.mark('t', &ret), plist, self.mark('r', &ret), body.join("\n"), ind(i + 1)));
             info.methods.push((mname, params, ret));
         }
         if let (Some(b), true) = (&base, self.tape.chance(1, 2)) {
@@ -934,26 +968,31 @@ impl<'t, 'a, 'g> Gen<'t, 'a, 'g> {
                 // override calling super.m()
                 self.tag("class:super-method-call");
                 let args: Vec<String> = m.1.iter().map(|t| self.literal(t)).collect();
-                lines.push(format!("{}{}(...rest) {{ return [\"sub\", super.{}({})]; }}", ind(i + 1), m.0, m.0, args.join(", ")));
+                lines.push(format!("{}{}{}(...rest{}){} {{ return [\"sub\", super.{}({})]; }}", ind(i + 1), self.ts_only("override "), m.0, self.mark('R', &Ty::Any), self.mark('r', &Ty::Any), m.0, args.join(", ")));
                 info.methods.push((m.0.clone(), m.1.clone(), Ty::Any));
             }
         }
         if self.tape.chance(1, 3) {
             self.tag("class:getter-setter");
             let gname = format!("g{}", self.classes.len());
-            lines.push(format!("{}get {}() {{ return {}; }}", ind(i + 1), gname, self.literal(&Ty::Num)));
-            lines.push(format!("{}set {}(v) {{ __t({}, v); }}", ind(i + 1), gname, { let id = self.trace_id; self.trace_id += 1; id }));
+            lines.push(format!("{}{}get {}(){} {{ return {}; }}", ind(i + 1), self.mark('d', &Ty::Num), gname, self.mark('r', &Ty::Num), self.literal(&Ty::Num)));
+            lines.push(format!("{}{}set {}(v{}) {{ __t({}, v); }}", ind(i + 1), self.mark('d', &Ty::Num), gname, self.mark('p', &Ty::Num), { let id = self.trace_id; self.trace_id += 1; id }));
             info.getters.push((gname, Ty::Num));
         }
         if self.tape.chance(1, 3) {
             self.tag("class:static-method");
             let sname = format!("s{}", self.classes.len());
-            lines.push(format!("{}static {}(x) {{ return [x, typeof this]; }}", ind(i + 1), sname));
+            lines.push(format!("{}{}static {}{}(x{}){} {{ return [x, typeof this]; }}", ind(i + 1), self.mark('D', &Ty::Any), sname, self.mark('t', &Ty::Any), self.mark('p', &Ty::Num), self.mark('r', &Ty::Any)));
             info.statics.push((sname, vec![Ty::Num], Ty::Any));
         }
         if self.tape.chance(1, 4) {
             self.tag("class:static-field");
-            lines.push(format!("{}static count = {};", ind(i + 1), self.literal(&Ty::Num)));
+            lines.push(format!("{}{}static {}count{} = {};", ind(i + 1), self.mark('D', &Ty::Num), self.mark('O', &Ty::Num), self.mark('v', &Ty::Num), self.literal(&Ty::Num)));
+        }
+        // implement the members a base-only class may declare abstract
+        if let Some(n) = base.as_ref().and_then(|b| b.only_base) {
+            lines.push(format!("{ind}am{n}(x) {{ return \"am\" + x; }}\n{ind}ap{n} = {n};\n{ind}get ag{n}() {{ return {n}; }}\n{ind}set ag{n}(v) {{}}\n{ind}ao{n}(x) {{}}", ind = ind(i + 1), n = n));
+            info.fields.push((format!("ap{}", n), Ty::Num));
         }
         // inherit what the base offers
         if let Some(b) = &base {
@@ -974,10 +1013,29 @@ impl<'t, 'a, 'g> Gen<'t, 'a, 'g> {
         if self.cfg.ts_slots {
             // TypeScript-only members: index signature, declared field, optional field, method overload-free signature
             lines.insert(0, self.ts_only(&format!("{}[key: string]: any;\n{}declare hidden: number;", ind(i + 1), ind(i + 1))));
+            lines.insert(1, self.ts_only(&format!("{ind}private declare readonly hidden2: string;\n{ind}static [key: string]: unknown;\n{ind}optional?(x: number): void;\n{ind}declare [\"computed\"]: number;", ind = ind(i + 1))));
+            if only_base {
+                // abstract members exist only together with the `abstract` modifier of the class
+                lines.push(self.ts_only_group(grp, &format!("{ind}abstract am{n}(x: number): string;\n{ind}protected abstract readonly ap{n}: number;\n{ind}public abstract get ag{n}(): number;\n{ind}abstract set ag{n}(v: number);\n{ind}abstract ao{n}(): void;\n{ind}abstract ao{n}(x?: number): void;", ind = ind(i + 1), n = self.classes.len())));
+            }
         }
         let ext = base.as_ref().map(|b| format!(" extends {}", b.name)).unwrap_or_default();
         let idx = self.classes.len();
         self.classes.push(info);
+        if only_base {
+            self.tag("class:only-base");
+            return format!(
+                "{}{}class {}{}{}{} {{\n{}\n{}}}",
+                ind(i),
+                self.ts_only_group(grp, "abstract "),
+                name,
+                self.mark('T', &Ty::Any),
+                ext,
+                self.mark('i', &Ty::Any),
+                lines.join("\n"),
+                ind(i)
+            );
+        }
         let inst = self.fresh("o");
         let newexpr = self.new_inst(idx, 1);
         self.declare(&inst, Ty::Inst(idx), false);
